@@ -36,7 +36,7 @@ LEVEL = "exploration"
 BUDGET = {"quick": 75, "thorough": 1500}
 BATCH_TIMEOUT = {"quick": 300, "thorough": 2400}
 RULE = (
-    "W1: (handshake state instance reached by a legal prefix) x handshake type 0..255 (+bad-MAC/bad-signature variants), "
+    "W1: (handshake state instance reached by a legal prefix) x handshake type (thorough: all 0..255; quick: all named types, 0/3/6/255 and 64 seeded others; +bad-MAC/bad-signature variants), "
     "one message then the legal continuation. W2: all sequences of length 0..L (quick 4, thorough 6) over "
     "{EE,CR,Cert,CV,Fin} (client victim) / {Cert,Cert-empty,CV,Fin} (server victim) x adversary key mode "
     "(auth/own/steal/...) x PSK scenario x transcript policy (sent/accepted). W3: flights of length <= 3 in QUIC packets "
@@ -95,7 +95,7 @@ def finalize(tier, merged):
     done = int(merged.get("w2_client_sequences", 0) + merged.get("w2_server_sequences", 0))
     return {
         # every planned sequence of every scenario was executed (nothing cut off by the budget / a dead child)
-        "exhaustive": bool(done == planned and merged.get("w1_cells", 0) >= len(w1_instances()) * 256),
+        "exhaustive": bool(done == planned and merged.get("w1_cells", 0) >= len(w1_instances()) * (80 if tier == "quick" else 256)),
         "sequences_planned": planned,
         "states": 13,
         "sequences": int(merged.get("w2_client_sequences", 0) + merged.get("w2_server_sequences", 0)),
@@ -172,7 +172,7 @@ def plan(tier, seed):
     per = 3 if tier == "quick" else 2
     for i in range(0, len(inst), per):
         batches.append({"gen": "w1", "instances": inst[i : i + per], "seed": rng.randrange(1 << 30),
-                        "variants": 1 if tier == "quick" else 3})
+                        "variants": 1 if tier == "quick" else 3, "all_types": tier != "quick"})
     # ---- W2
     chunk = 800 if tier == "quick" else 2500
     for sc, L in client_scenarios(tier) + server_scenarios(tier):
@@ -998,9 +998,21 @@ def w1_start_cell(env, spec, res, case):
     res.evaluations += 1
 
 
-def w1_specs(variants):
+NAMED_TYPES = (T_CH, T_SH, T_NST, T_EOED, T_EE, T_CERT, T_CR, T_CV, T_FIN, T_KU, T_CCERT, T_MH)
+
+
+def w1_types(all_types, seed):
+    """thorough: all 256 values; quick: every value with a TLS 1.3 meaning, 0/3/6/255 and 64 seeded others"""
+    if all_types:
+        return list(range(256))
+    base = sorted(set(NAMED_TYPES) | {0, 3, 6, 255})
+    others = [t for t in range(256) if t not in base]
+    return sorted(base + random.Random(seed).sample(others, 64))
+
+
+def w1_specs(variants, all_types=True, seed=0):
     specs = []
-    for t in range(256):
+    for t in w1_types(all_types, seed):
         specs.append({"t": t, "v": 0})
         if variants > 1 and t not in (T_CH, T_SH, T_EE, T_CERT, T_CR, T_CV, T_FIN, T_NST):
             for v in range(1, variants):
@@ -1011,7 +1023,7 @@ def w1_specs(variants):
 
 def gen_w1(batch, res):
     for k, inst in enumerate(batch["instances"]):
-        for spec in w1_specs(batch.get("variants", 1)):
+        for spec in w1_specs(batch.get("variants", 1), batch.get("all_types", True), batch["seed"] + k):
             if spec.get("v") == "empty" and inst["side"] == "client":
                 continue  # see ASSUMPTIONS (empty server Certificate)
             if spec.get("v") == "stale" and inst["side"] == "server":
